@@ -55,7 +55,18 @@ def strip(traces):
 
 
 def validate(ctx, scenarios, wanted, label, workers=8):
-    traces = [GB.run(sc) for sc in scenarios]
+    traces, kept = [], []
+    for sc in scenarios:
+        try:
+            traces.append(GB.run(sc))
+            kept.append(sc)
+        except GB.ForeignRows as e:
+            if wanted("batch.background_is_own_data"):
+                ctx.violation("trace.batch.background_is_own_data", "%s/%s" % (sc.cls, sc.mode), "scenario [%s]: %s" % (sc.key(), e),
+                              {"batch_scenario": sc.to_json()})
+    scenarios[:] = kept          # callers zip their list with the traces
+    if not traces:
+        return [], []
     fails, res = tracecheck.validate("Trace_BatchSage", strip(traces), lambda t: len(t["calls"]), tag=ctx.pid.lower() + "bt",
                                      workers=workers)
     ncalls = sum(len(t["calls"]) for t in traces)
